@@ -55,7 +55,12 @@ class _Null:
 def silence_stdout():
     """Workers: the RunEngine prints on every pause/abort; drop it."""
     sys.stdout = _Null()
+    if os.environ.get("BSV_KEEP_STDERR") != "1":
+        # abandoned executions (deadlock outcomes, X2 unwinds) make the interpreter print
+        # "Exception ignored in <coroutine _run>" when their frames are finalised
+        sys.stderr = _Null()
 
 
 def restore_stdout():
     sys.stdout = sys.__stdout__
+    sys.stderr = sys.__stderr__
